@@ -76,6 +76,33 @@ pub enum Step {
     /// a pending operation is abandoned from another handle, but its own future is only polled again later - after
     /// the released id has been handed to a new operation; that operation's reservation must survive
     AbandonNoticedLate,
+    /// a search through a user-defined adapter which fails (returns Err) from its next() after `after` items, while the
+    /// search is still open at the server; the caller then finish()es
+    SearchAdapterError { n: u8, after: u8, chained: bool },
+}
+
+/// user-defined adapter: passes everything through, fails on purpose
+#[derive(Clone, Debug)]
+pub struct FailingAdapter {
+    left: u8,
+}
+impl ldap3::adapters::SoloMarker for FailingAdapter {}
+
+#[async_trait::async_trait]
+impl<'a> Adapter<'a, &'a str, Vec<&'a str>> for FailingAdapter {
+    async fn start(&mut self, stream: &mut ldap3::SearchStream<'a, &'a str, Vec<&'a str>>, base: &str, scope: Scope, filter: &str, attrs: Vec<&'a str>) -> ldap3::result::Result<()> {
+        stream.start(base, scope, filter, attrs).await
+    }
+    async fn next(&mut self, stream: &mut ldap3::SearchStream<'a, &'a str, Vec<&'a str>>) -> ldap3::result::Result<Option<ldap3::ResultEntry>> {
+        if self.left == 0 {
+            return Err(ldap3::LdapError::AdapterInit("failing on purpose in next()".into()));
+        }
+        self.left -= 1;
+        stream.next().await
+    }
+    async fn finish(&mut self, stream: &mut ldap3::SearchStream<'a, &'a str, Vec<&'a str>>) -> ldap3::LdapResult {
+        stream.finish().await
+    }
 }
 
 #[derive(Clone, Debug, Serialize, Deserialize)]
@@ -99,7 +126,7 @@ fn strat(_: &Ctx) -> BoxedStrategy<Case> {
         }),
         1 => (any::<bool>(), any::<bool>()).prop_map(|(adapted, late)| Step::SearchTimeout { adapted, late }),
         3 => prop_oneof![Just(AbandonTarget::Finished), Just(AbandonTarget::TimedOut), Just(AbandonTarget::InFlight), Just(AbandonTarget::NeverIssued), Just(AbandonTarget::InFlightSearch), Just(AbandonTarget::InFlightSearchDropped)].prop_map(Step::Abandon),
-        1 => (0u8..3).prop_map(Step::Unsolicited),
+        2 => (0u8..5).prop_map(Step::Unsolicited),
         3 => (1u8..6).prop_map(Step::Rewind),
         2 => (any::<bool>(), any::<bool>()).prop_map(|(search, adapted)| Step::TimeoutTie { search, adapted }),
         2 => (any::<bool>(), any::<bool>(), any::<bool>()).prop_map(|(search, adapted, answered)| Step::TimeoutWhileQueued { search, adapted, answered }),
@@ -110,6 +137,7 @@ fn strat(_: &Ctx) -> BoxedStrategy<Case> {
         1 => any::<bool>().prop_map(|adapted| Step::PagedFinishWhileIdReused { adapted }),
         1 => (0u8..3, 0u8..4).prop_map(|(how, n)| Step::SearchWithNotice { how, n }),
         1 => Just(Step::AbandonNoticedLate),
+        2 => (0u8..4, 0u8..4, any::<bool>()).prop_map(|(n, after, chained)| Step::SearchAdapterError { n, after: after.min(n), chained }),
     ];
     (vec(step, 3..=14), 1u8..=3, any::<u64>()).prop_map(|(steps, repeat, sched)| Case { steps, repeat, sched }).boxed()
 }
@@ -367,6 +395,38 @@ async fn do_step(cx: &mut Cx, step: &Step) -> Result<(), Fail> {
             }
             // the withheld final result is sent by the caller of do_step, after the quiescent-point check:
             // a late result would otherwise clean up what the early finish() should have released
+        }
+        Step::SearchAdapterError { n, after, chained } => {
+            // the final result is withheld: the search is open at the server and the driver when the adapter fails
+            let (_, mk) = cx.plan(Plan::Answer { entries: *n, rc: 0, open: true });
+            let fa = FailingAdapter { left: (*after).min(*n) };
+            let attrs = vec!["a"];
+            let s = if *chained {
+                let ad: Vec<Box<dyn Adapter<_, _>>> = vec![Box::new(fa), Box::new(EntriesOnly::new())];
+                cx.ldap.streaming_search_with(ad, &mk, Scope::Subtree, "(a=b)", attrs).await
+            } else {
+                cx.ldap.streaming_search_with(fa, &mk, Scope::Subtree, "(a=b)", attrs).await
+            };
+            match s {
+                Ok(mut s) => {
+                    let mut failed = false;
+                    for _ in 0..=*n {
+                        match s.next().await {
+                            Ok(Some(_)) => {}
+                            Ok(None) => break,
+                            Err(ldap3::LdapError::AdapterInit(_)) => {
+                                failed = true;
+                                break;
+                            }
+                            Err(e) => fail!("c13:op-failed", "search next failed: {}", err_kind(&e)),
+                        }
+                    }
+                    ensure!(failed, "c13:adapter-error-swallowed", "the adapter's next() error was not returned");
+                    let _ = s.finish().await;
+                }
+                Err(e) => fail!("c13:op-failed", "search start failed: {}", err_kind(&e)),
+            }
+            cx.notes.push("adapter-error".into());
         }
         Step::SearchTimeout { adapted, late } => {
             let (_, mk) = cx.plan(Plan::Silent { late: *late });
@@ -746,9 +806,32 @@ async fn do_step(cx: &mut Cx, step: &Step) -> Result<(), Fail> {
             let msg = match k {
                 0 => RespMsg::new(0, Resp::Result { app: 24, res: Res::code(52, "notice"), sasl: None, exop_name: Some("1.3.6.1.4.1.1466.20036".into()), exop_val: None }),
                 1 => RespMsg::new(id, Resp::result(11, Res::ok("unsol"))),
-                _ => RespMsg::new(id, Resp::Entry(Entry::simple("cn=unsol"))),
+                2 => RespMsg::new(id, Resp::Entry(Entry::simple("cn=unsol"))),
+                // a response under the id the allocator hands out NEXT (not in use now, the client is idle): it belongs
+                // to nobody, and the operation that gets this id afterwards must be served normally (C01: a response
+                // under an unknown id disturbs no other operation)
+                k => {
+                    let fid = {
+                        let m = cx.msgmap.lock().unwrap();
+                        if m.0 < i32::MAX - 4 && !m.1.contains(&(m.0 + 1)) {
+                            m.0 as i64 + 1
+                        } else {
+                            id
+                        }
+                    };
+                    if *k == 3 {
+                        RespMsg::new(fid, Resp::result(11, Res::ok("unsol")))
+                    } else {
+                        RespMsg::new(fid, Resp::Entry(Entry::simple("cn=unsol")))
+                    }
+                }
             };
             cx.wire.push(&msg.encode());
+            if *k >= 3 {
+                // the driver has read and dropped it before the next operation is issued
+                quiesce().await;
+                cx.notes.push("stray-response-under-the-next-id".into());
+            }
         }
     }
     Ok(())
@@ -769,6 +852,7 @@ fn step_class(s: &Step) -> String {
         Step::SearchWithForeign { adapted, .. } => format!("search-with-foreign-response-{}", if *adapted { "adapted" } else { "direct" }),
         Step::SearchConvTimeout { .. } => "search()-timeout".into(),
         Step::AbandonNoticedLate => "abandon-noticed-late".into(),
+        Step::SearchAdapterError { chained, .. } => format!("user-adapter-fails-in-next{}", if *chained { "-chained" } else { "" }),
         Step::SearchWithNotice { how, .. } => format!("search-with-id0-notice-{}", ["direct", "entries-only", "search()"][*how as usize % 3]),
         Step::LocalFailure(k) => format!("local-failure-{}", k % 5),
         Step::DoubleTimeout { second_is_search, .. } => format!("double-timeout-{}", if *second_is_search { "op+search" } else { "op+op" }),
